@@ -30,6 +30,7 @@ positional lists ...) is generated only in mode "exotic", for the
 no-code-execution / rejects-or-returns clause, never for the equality oracle.
 """
 import ast
+import keyword
 
 SENTINEL = "__verif_sentinel__"
 
@@ -194,7 +195,8 @@ def _strategies():
   key = st.one_of(
       st.sampled_from(["alpha", "bits", "integer", "symmetric", "scale_axis",
                        "use_stochastic_rounding", "a", "b", "_k", "x1"]),
-      st.from_regex(r"[a-z_][a-z0-9_]{0,6}", fullmatch=True))
+      st.from_regex(r"[a-z_][a-z0-9_]{0,6}", fullmatch=True)).filter(
+          lambda k: not keyword.iskeyword(k))
   return st, scalar, kwval, key
 
 
